@@ -133,6 +133,28 @@ Proof.
   cbn [iterM]. rewrite (bind_eq _ _ s tt s); [exact (IH s H)|]. unfold validate_index. unfold in_size in Hi. now rewrite Hi.
 Qed.
 
+(* what the judgement says an operand designates, for every register size and every index list / bounds *)
+Lemma lit_ints_lits zs : lit_ints (map (fun z => ELit (VInt z)) zs) = Some zs.
+Proof. induction zs as [|z zs IH]; [reflexivity|]. cbn [map lit_ints]. now rewrite IH. Qed.
+
+Lemma opnd_bits_index_set m r n zs : sget r m = Some n ->
+  opnd_bits m (QIdx r [IdxSet (map (fun z => ELit (VInt z)) zs)]) =
+  if forallb (in_size n) zs then Some (map (fun i => (r, i)) zs) else None.
+Proof. intros H. cbn [opnd_bits]. now rewrite H, lit_ints_lits. Qed.
+
+Lemma opnd_bits_slice m r n a b st bits : sget r m = Some n ->
+  opnd_bits m (QIdx r [IdxList [IRange (Some (ELit (VInt a))) (Some (ELit (VInt b))) (Some (ELit (VInt st)))]]) = Some bits ->
+  (0 <= a < n /\ 0 <= b - 1 < n) /\
+  exists l, bits = map (fun i => (r, i)) l /\
+    forall x, In x l <-> exists k, 0 <= k /\ x = a + k * st /\ (if 0 <? st then x < b else b < x).
+Proof.
+  intros H. cbn [opnd_bits lit_end]. rewrite H.
+  destruct (in_size n a && in_size n (b - 1)) eqn:C; [|discriminate]. destruct (py_range a b st) as [l|] eqn:Er; [|discriminate].
+  intros E. injection E as <-. apply andb_true_iff in C as [A B]. unfold in_size in A, B.
+  apply andb_true_iff in A as [A0 A1]. apply andb_true_iff in B as [B0 B1]. apply Z.leb_le in A0, B0. apply Z.ltb_lt in A1, B1.
+  split; [lia|]. exists l. split; [reflexivity|]. intros x. exact (py_range_In a b st l x Er).
+Qed.
+
 Section Ops.
 Variable check_only : bool.
 Variable visit_rec : stmt -> M (list stmt).
